@@ -810,7 +810,7 @@ def check(run):
                     budgets |= {s_, s_ + 1}
             if tier == "thorough":
                 budgets |= {b for b in (B - 1, B, B + 1, io_default, io_default + 1) if b < szs[-1]}
-                budgets |= {fork.randrange(1, szs[-1] + 1) for _ in range(3)}
+                budgets |= {fork.randrange(1, szs[-1] + 1) for _ in range(3)} if szs[-1] >= 1 else set()
         top = max([len(v) for lst in vs.values() for v in lst] or [0])
         fsize_budgets["%s/%s/%s" % (g["producer"], g["scenario"], "old" if g["old"] else "fresh")] = sorted(budgets)
         for b in sorted(budgets):
